@@ -158,6 +158,34 @@ def fam_matrix(rng, n, fam):
             for i in range(n):
                 M[i][r] = M[i][p]
         return M
+    if fam == "rankdef_inexact":
+        # exactly singular, small integers, but the elimination ratios (7/3, 4/9, ...) are not representable:
+        # a pivot that is exactly 0 in exact arithmetic is rounded to ~1e-16 in floating point
+        if n < 3:
+            return fam_matrix(rng, n, "rankdef")
+        while True:
+            M = [[float(rng.choice([1, 2, 3, 4, 5, 6, 7, 8, 9, 3, 7])) * rng.choice([1, 1, 1, -1]) for _ in range(n)] for _ in range(n)]
+            c = rng.random()
+            r = rng.randrange(n); others = [i for i in range(n) if i != r]
+            if c < 0.45:
+                p, q = rng.sample(others, 2)
+                M[r] = [x + y for x, y in zip(M[p], M[q])]
+            elif c < 0.7:
+                p, q = rng.sample(others, 2)
+                M[r] = [2 * x - y for x, y in zip(M[p], M[q])]
+            elif c < 0.85:
+                p, q = rng.sample(others, 2)
+                for i in range(n):
+                    M[i][r] = M[i][p] + M[i][q]
+            else:       # arithmetic progression rows: 1..n^2 pattern, rank 2
+                s0 = rng.randint(1, 3)
+                M = [[float(s0 + i * n + j) for j in range(n)] for i in range(n)]
+            if n >= 5 and rng.random() < 0.5:   # lower the rank further
+                r2 = rng.choice(others); o2 = [i for i in range(n) if i not in (r, r2)]
+                p, q = rng.sample(o2, 2)
+                M[r2] = [x - y for x, y in zip(M[p], M[q])]
+            if fdet(M) == 0:
+                return M
     if fam == "graded":      # rank-deficient integer matrix + t * integer matrix: kappa ~ 1/t
         B = fam_matrix(rng, n, "rankdef")
         t = 10.0 ** -rng.randint(1, 7)
@@ -169,7 +197,7 @@ def fam_matrix(rng, n, fam):
     raise ValueError(fam)
 
 
-FAMS = ["int", "dyadic", "uniform", "perm", "sperm", "zeromin", "tinymin", "upper", "lower", "diag", "sym", "rankdef",
+FAMS = ["rankdef_inexact", "int", "dyadic", "uniform", "perm", "sperm", "zeromin", "tinymin", "upper", "lower", "diag", "sym", "rankdef",
         "graded", "scaled"]
 
 
@@ -177,7 +205,7 @@ def admissible(M):
     """exactly singular with small integers, or comfortably invertible with kappa <= 1e8"""
     d = fdet(M)
     if d == 0:
-        return all(float(x).is_integer() and abs(x) <= 8 for r in M for x in r), None
+        return all(float(x).is_integer() and abs(x) <= 40 for r in M for x in r) and len(M) <= 7, None
     if abs(d) < Fraction(1, 2 ** 36) * rowprod(M):
         return False, None
     X = finv(M)
@@ -205,6 +233,19 @@ def generate(tier, seed, ctx):
                 m = mat_tok(M)
                 for op in ("c05.det", "c05.invertible", "c05.inverse"):
                     R.append(op + " " + m); ctx["fam"][R[-1]] = fam
+                if kap is None or fam in ("int", "zeromin", "perm"):
+                    R.append("c05.gate " + m); ctx["fam"][R[-1]] = fam
+    # more exactly singular matrices with inexact elimination ratios, sizes 3..6
+    for n in range(3, 7):
+        for _ in range(12 if thorough else 4):
+            M = fam_matrix(rng, n, "rankdef_inexact")
+            R.append("c05.gate " + mat_tok(M)); ctx["fam"][R[-1]] = "rankdef_inexact"
+            R.append("c05.inverse " + mat_tok(M)); ctx["fam"][R[-1]] = "rankdef_inexact"
+    for M in ([[1.0, 2.0, 3.0], [4.0, 5.0, 6.0], [7.0, 8.0, 9.0]], [[float(4 * i + j + 1) for j in range(4)] for i in range(4)],
+              [[3.0, 1.0, 2.0], [7.0, 5.0, 1.0], [10.0, 6.0, 3.0]],
+              [[1.0, 2.0, 3.0, 4.0, 5.0], [2.0, 7.0, 1.0, 8.0, 3.0], [3.0, 9.0, 4.0, 12.0, 8.0], [5.0, 3.0, 9.0, 1.0, 7.0], [7.0, 10.0, 10.0, 9.0, 10.0]]):
+        for op in ("c05.gate", "c05.det", "c05.invertible", "c05.inverse"):
+            R.append(op + " " + mat_tok(M)); ctx["fam"][R[-1]] = "corpus-singular"
     # the defect of the pinned tree as a fixed corpus
     for M in ([[0.0, 1.0], [1.0, 0.0]], [[1e-20, 1.0], [1.0, 1.0]], [[0.0, 0.0, 1.0], [0.0, 1.0, 0.0], [1.0, 0.0, 0.0]],
               [[0.0, 2.0, 0.0], [0.0, 0.0, 3.0], [5.0, 0.0, 0.0]], [[1.0, 2.0], [2.0, 4.0]], [[0.0]], [[-4.0]]):
@@ -263,6 +304,25 @@ def oracle(op, a, impl, ctx, scale_model=None):
         if n >= 2 and dSw != -dA:
             bad.append("row exchange does not flip the sign")
         return ("determinant law: " + "; ".join(bad), "") if bad else None
+    if op == "c05.gate":
+        if not sq:
+            return None if ti_ == "err" else ("non-square request did not stop with a diagnostic", impl[:120])
+        if ti_ != "ok" or "|" not in ti:
+            return ("Determinant/Invertible of a square matrix terminated the process", impl[:120])
+        k = ti.index("|")
+        dv, iv, rest = fl(ti[0]), ti[1], ti[k + 1:]
+        d = fdet(M)
+        if iv != ("1" if d != 0 else "0"):
+            return ("Invertible() is not (det != 0)", "det = %r, answer %s" % (float(d), iv))
+        if dv == 0.0 or d == 0:
+            # the library's own determinant vanishes: a diagnostic is the only acceptable outcome
+            if rest[:1] != ["err"]:
+                return ("singular matrix: Inverse returned numbers instead of a diagnostic",
+                        "Determinant() = %r, Invertible() = %s, Inverse() -> %s" % (dv, iv, " ".join(rest[:6])))
+            return None
+        if rest[:1] != ["ok"]:
+            return ("invertible matrix: Inverse terminated the process with a diagnostic", "det = %r" % float(d))
+        return oracle("c05.inverse", a, "ok " + " ".join(rest[1:]), ctx)
     if not sq:
         if op == "c05.invertible":
             return None if (ti_ == "ok" and ti == ["0"]) else ("Invertible() of a non-square matrix is not false", impl[:80])
@@ -353,6 +413,13 @@ def compare(rq, impl, model, ctx):
             Xe = finv(M)
             if [x for r in Xe for x in r] != Xm:
                 out.append(fail("corr", "inverse: model differs from exact elimination", ""))
+        elif op == "c05.gate":
+            if "|" in ti and "|" in tm:
+                ki, km = ti.index("|"), tm.index("|")
+                if ti[1] != tm[1] or ti[ki + 1] != tm[km + 1]:
+                    out.append(fail("corr", "gate: Invertible()/outcome of Inverse() differ from the model", ""))
+                if not close(fl(ti[0]), fr(tm[0]), 1, 0, atol=det_tol(n, rowprod(M))):
+                    out.append(fail("corr", "gate: Determinant() differs from the model", ""))
         elif op == "c05.detlaws":
             if [Fraction(fl(t)) for t in ti] != [fr(t) for t in tm]:
                 out.append(fail("corr", "detlaws: implementation differs from the model", ""))
